@@ -118,3 +118,123 @@ Proof.
   assert (H3 : 0 < a * (w + v) + b) by nra.
   apply Rmult_integral in H1. destruct H1 as [H1 | H1]; lra.
 Qed.
+
+(* ------------------------------------------------------------------ each update is a stationary
+   point of the log-likelihood in its own coordinate.
+   log L(X) = sum_kl c_kl ln (x_kl / x_k), x_k = sum_l x_kl, X symmetric.  With every entry other than
+   x_ij = x_ji = v fixed, and r_i = x_i - x_ij, r_j = x_j - x_ij the rest of rows i and j, the part of
+   log L that depends on v is  ell_off (c_ij + c_ji) c_i c_j r_i r_j v;  for a diagonal entry
+   x_ii = u with r = x_i - x_ii it is  ell_diag c_ii c_i r u. *)
+Lemma dlog_shift r v : 0 < r + v -> derivable_pt_lim (fun u => ln (r + u)) v (/ (r + v)).
+Proof.
+  intros H.
+  replace (/ (r + v)) with (/ (r + v) * (0 + 1)) by ring.
+  apply (derivable_pt_lim_comp (fun u => r + u) ln).
+  - apply (derivable_pt_lim_plus (fun _ => r) id); [apply derivable_pt_lim_const | apply derivable_pt_lim_id].
+  - apply derivable_pt_lim_ln. exact H.
+Qed.
+Definition ell_off (s ci cj ri rj : R) (v : R) : R := s * ln v - ci * ln (ri + v) - cj * ln (rj + v).
+Definition dell_off (s ci cj ri rj v : R) : R := s / v - ci / (ri + v) - cj / (rj + v).
+Lemma ell_off_derivative s ci cj ri rj v : 0 < v -> 0 < ri + v -> 0 < rj + v ->
+  derivable_pt_lim (ell_off s ci cj ri rj) v (dell_off s ci cj ri rj v).
+Proof.
+  intros Hv Hi Hj. unfold ell_off, dell_off.
+  apply (derivable_pt_lim_minus (fun u => s * ln u - ci * ln (ri + u)) (fun u => cj * ln (rj + u))).
+  - apply (derivable_pt_lim_minus (fun u => s * ln u) (fun u => ci * ln (ri + u))).
+    + unfold Rdiv. apply (derivable_pt_lim_scal ln s). apply derivable_pt_lim_ln. exact Hv.
+    + unfold Rdiv. apply (derivable_pt_lim_scal (fun u => ln (ri + u)) ci). apply dlog_shift. exact Hi.
+  - unfold Rdiv. apply (derivable_pt_lim_scal (fun u => ln (rj + u)) cj). apply dlog_shift. exact Hj.
+Qed.
+
+(* the code's quadratic is -v (r_i + v)(r_j + v) times that derivative *)
+Lemma offdiag_quadratic_is_derivative cij cji ci cj xi xj xij :
+  let ri := xi - xij in let rj := xj - xij in
+  forall v, v <> 0 -> ri + v <> 0 -> rj + v <> 0 ->
+  qa cij cji ci cj * v * v + qb cij cji ci cj xi xj xij * v + qc cij cji xi xj xij =
+  - (v * (ri + v) * (rj + v)) * dell_off (cij + cji) ci cj ri rj v.
+Proof. intros ri rj v H1 H2 H3. unfold qa, qb, qc, dell_off, ri, rj in *. field. repeat split; assumption. Qed.
+
+(* offdiag_is_stationary: the value the code stores is a zero of d/dv log L (row sums moving with v,
+   as the code moves them), whenever it is positive *)
+Lemma offdiag_is_stationary cij cji ci cj xi xj xij xji :
+  0 <= cij + cji -> 0 <= xi - xij -> 0 <= xj - xij -> qa cij cji ci cj > 0 ->
+  let ri := xi - xij in let rj := xj - xij in
+  let v := fst (fst (fst (py_offdiag ROps cij cji ci cj xi xj xij xji))) in
+  0 <= v /\
+  (0 < v -> derivable_pt_lim (ell_off (cij + cji) ci cj ri rj) v 0) /\
+  (0 < cij + cji -> 0 < ri -> 0 < rj -> 0 < v).
+Proof.
+  intros Hs Hri Hrj Ha ri rj v.
+  assert (Hc : qc cij cji xi xj xij <= 0).
+  { unfold qc. assert (0 <= (cij + cji) * (xi - xij) * (xj - xij)) by (apply Rmult_le_pos; [apply Rmult_le_pos|]; assumption). lra. }
+  assert (Hv : v = root (qa cij cji ci cj) (qb cij cji ci cj xi xj xij) (qc cij cji xi xj xij)).
+  { unfold v. rewrite py_offdiag_spec by exact Hc. cbn [fst]. unfold newv.
+    destruct (Req_EM_T (qa cij cji ci cj) 0); [lra | reflexivity]. }
+  destruct (quad_root _ (qb cij cji ci cj xi xj xij) _ Ha Hc) as [Hq Hv0]. rewrite <- Hv in Hq, Hv0.
+  split; [exact Hv0 | split].
+  - intros Hvp.
+    assert (H1 : 0 < ri + v) by (unfold ri; lra). assert (H2 : 0 < rj + v) by (unfold rj; lra).
+    pose proof (ell_off_derivative (cij + cji) ci cj ri rj v Hvp H1 H2) as Hd.
+    assert (Hz : dell_off (cij + cji) ci cj ri rj v = 0).
+    { pose proof (offdiag_quadratic_is_derivative cij cji ci cj xi xj xij v) as Hid. cbv zeta in Hid.
+      fold ri rj in Hid.
+      assert (Hid' := Hid (Rgt_not_eq _ _ Hvp) (Rgt_not_eq _ _ H1) (Rgt_not_eq _ _ H2)).
+      rewrite Hq in Hid'.
+      assert (Hp : 0 < v * (ri + v) * (rj + v)) by (apply Rmult_lt_0_compat; [apply Rmult_lt_0_compat|]; assumption).
+      set (P := v * (ri + v) * (rj + v)) in *. set (D := dell_off (cij + cji) ci cj ri rj v) in *.
+      assert (HPD : P * D = 0) by (replace (- P * D) with (- (P * D)) in Hid' by ring; lra).
+      apply Rmult_integral in HPD. destruct HPD as [HPD | HPD]; [lra | exact HPD]. }
+    rewrite Hz in Hd. exact Hd.
+  - intros Hsp Hrip Hrjp. rewrite Hv. apply quad_root_pos; [exact Ha |].
+    unfold qc. assert (0 < (cij + cji) * (xi - xij) * (xj - xij)) by (apply Rmult_lt_0_compat; [apply Rmult_lt_0_compat|]; assumption). lra.
+Qed.
+
+(* ... and it is the only one: any other w > 0 at which the derivative vanishes is the stored value *)
+Lemma offdiag_stationary_unique cij cji ci cj xi xj xij xji w :
+  0 < cij + cji -> 0 < xi - xij -> 0 < xj - xij -> qa cij cji ci cj > 0 ->
+  0 < w -> dell_off (cij + cji) ci cj (xi - xij) (xj - xij) w = 0 ->
+  w = fst (fst (fst (py_offdiag ROps cij cji ci cj xi xj xij xji))).
+Proof.
+  intros Hs Hri Hrj Ha Hw Hd.
+  assert (Hc : qc cij cji xi xj xij < 0).
+  { unfold qc. assert (0 < (cij + cji) * (xi - xij) * (xj - xij)) by (apply Rmult_lt_0_compat; [apply Rmult_lt_0_compat|]; assumption). lra. }
+  rewrite py_offdiag_spec by lra. cbn [fst]. unfold newv.
+  destruct (Req_EM_T (qa cij cji ci cj) 0) as [E | _]; [lra |].
+  apply quad_root_unique; [exact Ha | exact Hc | lra |].
+  pose proof (offdiag_quadratic_is_derivative cij cji ci cj xi xj xij w) as Hid. cbv zeta in Hid.
+  rewrite Hid; [rewrite Hd; ring | lra | lra | lra].
+Qed.
+
+Definition ell_diag (cii ci r : R) (u : R) : R := cii * ln u - ci * ln (r + u).
+Definition dell_diag (cii ci r u : R) : R := cii / u - ci / (r + u).
+Lemma ell_diag_derivative cii ci r u : 0 < u -> 0 < r + u ->
+  derivable_pt_lim (ell_diag cii ci r) u (dell_diag cii ci r u).
+Proof.
+  intros Hu Hr. unfold ell_diag, dell_diag.
+  apply (derivable_pt_lim_minus (fun u => cii * ln u) (fun u => ci * ln (r + u))).
+  - unfold Rdiv. apply (derivable_pt_lim_scal ln cii). apply derivable_pt_lim_ln. exact Hu.
+  - unfold Rdiv. apply (derivable_pt_lim_scal (fun u => ln (r + u)) ci). apply dlog_shift. exact Hr.
+Qed.
+
+Lemma diag_is_stationary cii ci xi xii :
+  0 <= cii -> 0 <= xi - xii -> 0 < ci - cii ->
+  let r := xi - xii in
+  let u := fst (py_diag ROps cii ci xi xii) in
+  0 <= u /\ u * (ci - cii) = cii * r /\
+  (0 < u -> derivable_pt_lim (ell_diag cii ci r) u 0).
+Proof.
+  intros Hc Hr Hd r u.
+  assert (Hu : u = cii * (xi - xii) / (ci - cii)).
+  { unfold u. rewrite py_diag_spec. cbn [fst]. destruct (Rlt_dec 0 (ci - cii)); [reflexivity | contradiction]. }
+  assert (He : u * (ci - cii) = cii * r) by (rewrite Hu; unfold r; field; lra).
+  assert (H0 : 0 <= u).
+  { rewrite Hu. unfold Rdiv. apply Rmult_le_pos; [apply Rmult_le_pos; assumption |]. left. apply Rinv_0_lt_compat. exact Hd. }
+  split; [exact H0 | split; [exact He |]].
+  intros Hup. assert (Hru : 0 < r + u) by (unfold r; lra).
+  pose proof (ell_diag_derivative cii ci r u Hup Hru) as Hder.
+  assert (Hz : dell_diag cii ci r u = 0).
+  { unfold dell_diag. assert (cii * (r + u) = ci * u) by lra.
+    apply (Rmult_eq_reg_l (u * (r + u))); [| apply Rgt_not_eq; apply Rmult_lt_0_compat; assumption].
+    rewrite Rmult_0_r. field_simplify; [| lra]. lra. }
+  rewrite Hz in Hder. exact Hder.
+Qed.
